@@ -1,5 +1,68 @@
 /-
-  C16 — An octet string's content is the concatenation of its primitive segments. (header: see end of work)
+  C16 — An octet string's content is the concatenation of its primitive segments.
+
+  Model: Bcder.Model.Octet (src/string/octet.rs), encoders of Bcder.Model.Encode; reference:
+  Bcder.Spec.Tlv (`parseAll`, `parseUntilEoc`, `osSegments`, `osContent`, `osAccept`).
+  Everything below is for ALL inputs: no bound on sizes, on the number of segments or on the
+  nesting depth.
+
+  1. Primitive form (`prim_accept`, `prim_accept_iff`, `prim_reject`, `prim_accept_spec`, `prim_views`):
+     `OctetString::from_content` on a primitive content `c` followed by the framework's exhaustion
+     check, on the source `St (c ++ rest) (some c.length)` (`runG0`), returns `.prim c` with the
+     content consumed iff the mode is not CER or `c.length ≤ 1000` (= `Spec.osAccept`), and is a
+     content error otherwise; every view of `.prim c` is `c` (the segment iterator yields `[c]`, or
+     nothing if `c` is empty).  `cons_der_reject`: the constructed form is a content error in DER.
+
+  2. Views of a constructed value — main bundle `views_eq_concat`, also `octets_eq_osContent`,
+     `views_items`, `len_eq_sum`.
+     `wfTrees f c = some ts` (decidable; `WfOS c` is its existential closure) says that the captured
+     content octets `c` parse by the BER grammar, with fuel `f`, into the values `ts` — either
+     exactly (`parseAll`) or followed by one end-of-contents marker that ends `c`
+     (`parseUntilEoc … = some (ts, [])`: the shape the BER capture of an indefinite-length value
+     has, finding D12) — and that all of `ts` are OCTET STRING values, primitive or constructed of
+     such to any depth (`Spec.osContent 4 f t` is defined).  For every such `c`:
+       segments (.cons c) = ok (the primitive leaves `ts.flatMap (osSegments f)`, every one of
+                               them, empty ones included, in encoding order)
+       octets            = ok (their concatenation) = concatenation of the trees' `osContent`
+       len               = ok (length of that) = sum of the segment lengths
+       isEmpty           = ok (that is empty),   asSlice = none
+     never a panic, never out of fuel.  The proof goes through the flat structure the iterator
+     really walks (`Items`: constructed OCTET STRING headers and end-of-contents headers are
+     skipped, primitive OCTET STRINGs are yielded; `iter_step`, `iterNext_items`,
+     `segmentsCons_items`), which is compositional (`items_append`) and implied by the grammar
+     (`parse_items`).  `views_items` is the same bundle for any item sequence.
+
+  3. The value as a decoding source (`new_inv_prim`, `new_inv_cons`, `request_inv`, `advance_inv`,
+     `request_all`, `srcInv_prefix`): with `SrcInv s pend` ("`s.current` followed by the leaves of
+     `s.remainder` is `pend`"), `OctetStringSource::new` establishes it with `pend = octets`,
+     `request len` never fails, keeps `pend`, only extends `current` (which stays a prefix of
+     `pend`) and grants at least `len` octets whenever `pend` has that many (else all of `pend`);
+     `advance n` within `current` drops exactly `n` octets from `pend`; beyond `current` it panics.
+
+  4. Re-encoding (`write_der`, `write_der_ok`, `write_der_excessive`, `encodedLen_der_ok`,
+     `write_ber_prim`, `write_ber_cons`, `encodedLen_ber_cons`, `write_cer`,
+     `reencode_der_wellformed`, `reencode_ber_wellformed_partial`, `reencode_ber_d12`):
+     DER writes identifier(primitive) ++ shortest definite length ++ octets, whatever the
+     segmentation; BER keeps the form (constructed: identifier(constructed) ++ definite length of
+     the captured octets ++ the captured octets); 2^32 octets or more make the length writer
+     panic; CER is `unimplemented!()`.  With the OCTET STRING tag the DER output parses in every
+     mode as one primitive universal-4 value with the same content; the BER output of a constructed
+     value parses as one constructed value with the same kids provided the captured octets are a
+     plain sequence of values.
+
+  5. `cons_accept_captures_consumed`: whenever the constructed form is accepted (BER or CER), the
+     value holds exactly the octets the source was advanced over (from C11).
+
+  -- not covered:
+  * WHICH constructed encodings `from_content (.cons c)` accepts (BER: nothing but OCTET STRING
+    values to any depth; CER: primitive segments of ≤ 1000 octets, only the last shorter), and
+    hence that every accepted constructed value satisfies `wfTrees`: this is the `skip_opt` state
+    machine / `take_opt_primitive_if` loop under `capture` — covered by the differential check and
+    by C10 / C11, not here.
+  * BER re-encoding of a captured content that includes the enclosing end-of-contents octets is
+    NOT well-formed (`reencode_ber_d12`, known finding D12); hence `reencode_ber_wellformed_partial`.
+  * the views on captured octets that are not well-formed (the iterator panics on them, see the
+    example at the end); sources other than `SliceSource` for part 1 (C07).
 -/
 import Bcder.Model.Octet
 import Bcder.Model.Encode
@@ -7,9 +70,92 @@ import Bcder.Spec.Tlv
 import Bcder.Lemmas.Header
 import Bcder.Props.C02
 import Bcder.Props.C17
+import Bcder.Props.C11
 namespace Bcder.Props.C16
 open Bcder Bcder.Spec Prog
 open Bcder.Props.C02 (St run_getLimit run_need run_takeAll run_limitedExhausted)
+
+/-! ## C16, the primitive form -/
+
+theorem run_remaining (d : Bytes) (l : Nat) :
+    runG0 Prim.remaining (St d (some l)) = .ok (l, St d (some l)) := by
+  unfold Prim.remaining
+  simp only [runG0_bind, run_getLimit, runG0_pure]
+
+theorem fromContent_prim_run (fuel : Nat) (m : Mode) (c rest : Bytes) :
+    runG0 (OS.fromContent fuel (.prim m)) (St (c ++ rest) (some c.length)) =
+      if m = .cer ∧ 1000 < c.length then .error .content
+      else .ok ((.prim c, .prim m), St rest (some 0)) := by
+  unfold OS.fromContent
+  simp only [runG0_bind, run_remaining]
+  by_cases h : m = .cer ∧ 1000 < c.length
+  · obtain ⟨h1, h2⟩ := h
+    subst h1
+    simp [h2]
+  · have hb : (m == Mode.cer && decide (c.length > 1000)) = false := by
+      cases m <;> simp_all
+    simp only [hb, h, Bool.false_eq_true, if_false, runG0_bind, run_takeAll]
+    simp
+/-- the closure as the framework runs it: followed by the exhaustion check of the content -/
+def fromContentChecked (fuel : Nat) (content : Content) : Prog (OS × Content) := do
+  let r ← OS.fromContent fuel content
+  limitedExhausted
+  pure r
+
+/-- **C16 (acceptance, primitive form).**  `OctetString::from_content` on the primitive content `c`
+    (any length, any trailing octets `rest`, any mode), followed by the framework's exhaustion check:
+    accepted exactly when the mode is not CER or `c` has at most 1000 octets; the value is then
+    `.prim c` and all of the content is consumed; otherwise a content error (never a panic). -/
+theorem prim_accept (fuel : Nat) (m : Mode) (c rest : Bytes) :
+    runG0 (fromContentChecked fuel (.prim m)) (St (c ++ rest) (some c.length)) =
+      if m ≠ .cer ∨ c.length ≤ 1000 then .ok ((.prim c, .prim m), St rest (some 0))
+      else .error .content := by
+  unfold fromContentChecked
+  simp only [runG0_bind, fromContent_prim_run]
+  by_cases h : m = .cer ∧ 1000 < c.length
+  · have : ¬ (m ≠ .cer ∨ c.length ≤ 1000) := by
+      rintro (h1 | h1)
+      · exact h1 h.1
+      · omega
+    rw [if_neg this]
+    simp only [h, and_self, if_true]
+  · have : m ≠ .cer ∨ c.length ≤ 1000 := by
+      by_cases hm : m = .cer
+      · exact Or.inr (Nat.le_of_not_lt fun h2 => h ⟨hm, h2⟩)
+      · exact Or.inl hm
+    simp only [h, if_false, this, if_true, run_limitedExhausted, runG0_pure]
+
+theorem prim_accept_iff (fuel : Nat) (m : Mode) (c rest : Bytes) :
+    runG0 (fromContentChecked fuel (.prim m)) (St (c ++ rest) (some c.length)) =
+        .ok ((.prim c, .prim m), St rest (some 0)) ↔ (m ≠ .cer ∨ c.length ≤ 1000) := by
+  rw [prim_accept]
+  by_cases h : m ≠ .cer ∨ c.length ≤ 1000 <;> simp [h]
+
+theorem prim_reject (fuel : Nat) (m : Mode) (c rest : Bytes) (h : ¬ (m ≠ .cer ∨ c.length ≤ 1000)) :
+    runG0 (fromContentChecked fuel (.prim m)) (St (c ++ rest) (some c.length)) = .error .content := by
+  rw [prim_accept]; simp only [h, if_false]
+
+/-- the acceptance condition is the reference one (`Spec.osAccept` on a primitive tree) -/
+theorem prim_accept_spec (m : Mode) (id : Ident) (c : Bytes) :
+    osAccept (toM m) (.prim id c) = true ↔ (m ≠ .cer ∨ c.length ≤ 1000) := by
+  cases m <;> simp [osAccept, toM]
+
+/-- a constructed OCTET STRING is never accepted in DER, on any source -/
+theorem cons_der_reject (fuel : Nat) (st : CState) (g : G0) :
+    runG0 (OS.fromContent fuel (.cons ⟨st, .der⟩)) g = .error .content := rfl
+
+/-- **C16 (views, primitive form).**  All views of `.prim c` present `c`; the segment iterator
+    yields the one segment `c`, or nothing when `c` is empty. -/
+theorem prim_views (c : Bytes) :
+    OS.segments (.prim c) = .ok (if c = [] then [] else [c]) ∧
+    (if c = [] then ([] : List Bytes) else [c]).flatten = c ∧
+    OS.octets (.prim c) = .ok c ∧
+    OS.len (.prim c) = .ok c.length ∧
+    OS.isEmpty (.prim c) = .ok c.isEmpty ∧
+    OS.asSlice (.prim c) = some c := by
+  refine ⟨?_, ?_, rfl, rfl, rfl, rfl⟩
+  · cases c <;> rfl
+  · cases c <;> simp
 
 theorem unwrapOn_tag (bs : Bytes) :
     OS.unwrapOn Tag.takeFrom bs =
@@ -341,6 +487,21 @@ theorem foldl_accStep_some (g : Tree → Option Bytes) : ∀ (kids : List Tree) 
         · simp [hk]
         · exact h1 k' hk'
       · simp [h2, hk]
+
+theorem foldl_accStep_all (g : Tree → Option Bytes) : ∀ (kids : List Tree) (init : Bytes),
+    (∀ k ∈ kids, (g k).isSome) →
+      kids.foldl (accStep g) (some init) = some (init ++ (kids.filterMap g).flatten) := by
+  intro kids
+  induction kids with
+  | nil => intro init _; simp
+  | cons k ks ih =>
+    intro init h
+    have hk := h k (by simp)
+    cases hc : g k with
+    | none => simp [hc] at hk
+    | some c =>
+      simp only [List.foldl, accStep, hc, List.filterMap_cons, List.flatten_cons]
+      rw [ih _ (fun k' hk' => h k' (by simp [hk'])), List.append_assoc]
 
 /-- all trees are OCTET STRING values (primitive, or constructed of such, to depth ≤ `g`) -/
 def osTrees (g : Nat) (ts : List Tree) : Bool := ts.all fun t => (osContent 4 g t).isSome
@@ -679,6 +840,11 @@ theorem views_eq_concat (f : Nat) (c : Bytes) (ts : List Tree) (h : wfTrees f c 
       simp only [List.filterMap_cons, hc, List.length_cons]
       rw [ih (fun t' ht' => hall t' (by simp [ht']))]
 
+/-- `len` as the sum of the segment lengths -/
+theorem len_eq_sum (c : Bytes) (segs : List Bytes) (h : Items c segs) :
+    OS.len (.cons c) = .ok (segs.map List.length).sum := by
+  rw [(views_items c segs h).2.2.1, List.length_flatten]
+
 /-- the same against the tree of the WHOLE value: if the content octets `c` of a constructed
     encoding parse to `kids` and the reference content of the value `.cons id indef kids`
     (outer tag universal 4) is `r`, then every view presents `r` -/
@@ -869,5 +1035,302 @@ theorem request_all (s : OSS) (pend : Bytes) (len : Nat) (h : SrcInv s pend) (hl
       subst this; simpa using ht
     · exact r6 (by omega)
   exact ⟨s', by rw [r1, this], this, r2⟩
+
+/-! ## C16, re-encoding -/
+
+theorem tag_write_len (t : Tag) (c : Bool) : (t.write c).length = t.encodedLen := by
+  simp only [Tag.write, Tag.encodedLen]
+  split <;> (try split) <;> (try split) <;> simp
+
+/-- `segments` of any value flattens to its `octets` -/
+theorem segments_of_octets (os : OS) (x : Bytes) (h : os.octets = .ok x) :
+    ∃ segs, os.segments = .ok segs ∧ segs.flatten = x := by
+  cases os with
+  | prim b =>
+    simp only [OS.octets, pure, Except.pure, Except.ok.injEq] at h
+    subst h
+    refine ⟨_, rfl, ?_⟩
+    cases b <;> simp
+  | cons c =>
+    simp only [OS.octets, Bind.bind, Except.bind] at h
+    cases hs : OS.segments (.cons c) with
+    | error e => simp [hs] at h
+    | ok segs =>
+      simp only [hs, pure, Except.pure, Except.ok.injEq] at h
+      exact ⟨segs, rfl, h⟩
+
+theorem write_der (tag : Tag) (os : OS) (x : Bytes) (h : os.octets = .ok x) :
+    Enc.write .der (.octetString tag os) =
+      match (Length.definite x.length).write with
+      | .ok l => .ok (tag.write false ++ l ++ x)
+      | .error e => .error e := by
+  obtain ⟨segs, hs, hf⟩ := segments_of_octets os x h
+  have hl := C17.len_content os x h
+  simp only [Enc.write, hl, hs, Bind.bind, Except.bind, pure, Except.pure, hf]
+  cases (Length.definite x.length).write <;> rfl
+
+/-- **C16 (DER re-encoding).**  In DER every value whose content is `x` (however segmented) is
+    written as identifier (primitive) ++ shortest definite length of `x` ++ `x`. -/
+theorem write_der_ok (tag : Tag) (os : OS) (x : Bytes) (h : os.octets = .ok x) (hsz : x.length < 2 ^ 32) :
+    Enc.write .der (.octetString tag os) = .ok (tag.write false ++ lenOctets x.length ++ x) := by
+  rw [write_der tag os x h, C13.write_eq_spec _ hsz]
+
+/-- … and the announced size is the size written -/
+theorem encodedLen_der_ok (tag : Tag) (os : OS) (x : Bytes) (h : os.octets = .ok x) (hsz : x.length < 2 ^ 32) :
+    Enc.encodedLen .der (.octetString tag os) = .ok (tag.write false ++ lenOctets x.length ++ x).length := by
+  have hl := C17.len_content os x h
+  simp only [Enc.encodedLen, hl, Bind.bind, Except.bind, pure, Except.pure, lenOfLen, C13.write_len _ hsz,
+    List.length_append, tag_write_len]
+
+/-- a content of 2^32 octets or more cannot be written: the length encoder panics -/
+theorem write_der_excessive (tag : Tag) (os : OS) (x : Bytes) (h : os.octets = .ok x) (hsz : 2 ^ 32 ≤ x.length) :
+    Enc.write .der (.octetString tag os) = .error (.panic "excessive length") := by
+  rw [write_der tag os x h]
+  have : ¬ x.length < 4294967296 := by simpa using hsz
+  have e : (Length.definite x.length).write = .error (.panic "excessive length") := by
+    simp only [Length.write]
+    repeat' split
+    all_goals first | omega | rfl
+  rw [e]
+
+/-- **C16 (BER re-encoding).**  In BER the segmentation is kept: a primitive value is written as
+    primitive, a constructed one as identifier (constructed) ++ definite length of the captured
+    octets ++ the captured octets. -/
+theorem write_ber_prim (tag : Tag) (b : Bytes) (hsz : b.length < 2 ^ 32) :
+    Enc.write .ber (.octetString tag (.prim b)) = .ok (tag.write false ++ lenOctets b.length ++ b) := by
+  simp only [Enc.write, C13.write_eq_spec _ hsz, Bind.bind, Except.bind, pure, Except.pure]
+
+theorem write_ber_cons (tag : Tag) (c : Bytes) (hsz : c.length < 2 ^ 32) :
+    Enc.write .ber (.octetString tag (.cons c)) = .ok (tag.write true ++ lenOctets c.length ++ c) := by
+  simp only [Enc.write, C13.write_eq_spec _ hsz, Bind.bind, Except.bind, pure, Except.pure]
+
+theorem encodedLen_ber_cons (tag : Tag) (c : Bytes) (hsz : c.length < 2 ^ 32) :
+    Enc.encodedLen .ber (.octetString tag (.cons c)) = .ok (tag.write true ++ lenOctets c.length ++ c).length := by
+  simp only [Enc.encodedLen, Bind.bind, Except.bind, pure, Except.pure, lenOfLen, C13.write_len _ hsz,
+    List.length_append, tag_write_len]
+
+/-- the CER encoder of octet strings is `unimplemented!()` -/
+theorem write_cer (tag : Tag) (os : OS) :
+    Enc.write .cer (.octetString tag os) = .error (.panic "unimplemented") := rfl
+
+
+/-! ### the re-encoded octets are a well-formed encoding of the same content -/
+
+/-- the reference length reader reads back the shortest form, in every mode, whatever follows -/
+theorem readLen_lenOctets (ber : Bool) (n : Nat) (rest : Bytes) (h : n < 2 ^ 32) :
+    readLen ber (lenOctets n ++ rest) = some (some n, (lenOctets n).length) := by
+  have key : ∀ m : Mode, readLen m.isBer (lenOctets n ++ rest) = some (some n, (lenOctets n).length) := by
+    intro m
+    have h1 := C13.read_eq_spec m (lenOctets n ++ rest)
+    rw [C13.read_write m n rest h] at h1
+    cases hr : readLen m.isBer (lenOctets n ++ rest) with
+    | none => rw [hr] at h1; simp [C13.specResult] at h1
+    | some r =>
+      obtain ⟨x, k⟩ := r
+      obtain ⟨_, hk⟩ := readLen_bound _ _ _ _ hr
+      rw [hr] at h1
+      cases x with
+      | none => simp [C13.specResult] at h1
+      | some v =>
+        simp only [C13.specResult, Except.ok.injEq, Prod.mk.injEq, Length.definite.injEq] at h1
+        obtain ⟨hv, hg⟩ := h1
+        have hd : rest = (lenOctets n ++ rest).drop k := congrArg G.data hg
+        have hlen := congrArg List.length hd
+        simp only [List.length_drop, List.length_append] at hlen hk
+        have : k = (lenOctets n).length := by omega
+        subst hv
+        rw [this]
+  cases ber with
+  | true => exact key .ber
+  | false => exact key .der
+
+theorem os_write_false : Tag.OCTET_STRING.write false = [0x04] := by rfl
+theorem os_write_true : Tag.OCTET_STRING.write true = [0x24] := by rfl
+
+/-- **C16 (DER re-encoding is well-formed, same content).**  With the OCTET STRING tag, the DER
+    output for a value with content `x` is, in every mode's grammar and whatever follows it, one
+    primitive universal-4 value whose content is `x`. -/
+theorem reencode_der_wellformed (os : OS) (x : Bytes) (h : os.octets = .ok x) (hsz : x.length < 2 ^ 32)
+    (m : M) (f : Nat) (rest : Bytes) :
+    ∃ out, Enc.write .der (.octetString Tag.OCTET_STRING os) = .ok out ∧
+      parseValue m (f + 1) (out ++ rest) = some (.prim ⟨0, false, 4⟩ x, rest) ∧
+      osContent 4 f (.prim ⟨0, false, 4⟩ x) = some x ∧
+      osAccept .der (.prim ⟨0, false, 4⟩ x) = true := by
+  refine ⟨_, write_der_ok _ os x h hsz, ?_, by cases f <;> rfl, rfl⟩
+  rw [os_write_false]
+  have hl := readLen_lenOctets m.isBer x.length (x ++ rest) hsz
+  have hi : readIdent ([0x04] ++ lenOctets x.length ++ x ++ rest) = some (⟨0, false, 4⟩, 1) := by
+    simp [readIdent]
+  have hd : ([0x04] ++ lenOctets x.length ++ x ++ rest).drop 1 = lenOctets x.length ++ (x ++ rest) := by
+    simp
+  have hd2 : ([0x04] ++ lenOctets x.length ++ x ++ rest).drop (1 + (lenOctets x.length).length) = x ++ rest := by
+    rw [Nat.add_comm, List.append_assoc, List.append_assoc]
+    exact List.drop_left
+  simp only [parseValue, hi, hd, hl, hd2]
+  simp [isEocIdent]
+
+/-- **C16 (BER re-encoding is well-formed, same content) — partial.**  With the OCTET STRING tag,
+    the BER output for a constructed value whose captured octets `c` parse as a sequence of values
+    `ts` is one constructed definite-length universal-4 value with exactly these kids, hence (if
+    they are OCTET STRING values) with the same content.
+    Missing for the full claim: captured octets that include the enclosing value's end-of-contents
+    octets (finding D12, see `reencode_ber_d12` below) are written verbatim and the output is then
+    NOT a well-formed encoding. -/
+theorem reencode_ber_wellformed_partial (c : Bytes) (hsz : c.length < 2 ^ 32) (f : Nat) (ts : List Tree)
+    (hp : parseAll .ber f c = some ts) (rest : Bytes) :
+    ∃ out, Enc.write .ber (.octetString Tag.OCTET_STRING (.cons c)) = .ok out ∧
+      parseValue .ber (f + 1) (out ++ rest) = some (.cons ⟨0, true, 4⟩ false ts, rest) ∧
+      (osTrees f ts = true →
+        ∃ x, OS.octets (.cons c) = .ok x ∧ osContent 4 (f + 1) (.cons ⟨0, true, 4⟩ false ts) = some x) := by
+  refine ⟨_, write_ber_cons _ c hsz, ?_, ?_⟩
+  · rw [os_write_true]
+    have hl := readLen_lenOctets true c.length (c ++ rest) hsz
+    have hi : readIdent ([0x24] ++ lenOctets c.length ++ c ++ rest) = some (⟨0, true, 4⟩, 1) := by
+      simp [readIdent]
+    have hd : ([0x24] ++ lenOctets c.length ++ c ++ rest).drop 1 = lenOctets c.length ++ (c ++ rest) := by
+      simp
+    have hd2 : ([0x24] ++ lenOctets c.length ++ c ++ rest).drop (1 + (lenOctets c.length).length) = c ++ rest := by
+      rw [Nat.add_comm, List.append_assoc, List.append_assoc]
+      exact List.drop_left
+    have hb : M.ber.isBer = true := rfl
+    simp only [parseValue, hi, hd, hb, hl, hd2]
+    simp [isEocIdent, hp]
+  · intro hos
+    have hi := items_of_parseAll f c ts hp hos
+    obtain ⟨_, v2, _⟩ := views_items c _ hi
+    refine ⟨_, v2, ?_⟩
+    rw [osContent_cons]
+    simp only [beq_self_eq_true, Bool.and_self, Bool.not_true, Bool.false_eq_true, if_false]
+    have hall : ∀ t ∈ ts, (osContent 4 f t).isSome := by simpa [osTrees, List.all_eq_true] using hos
+    rw [foldl_accStep_all _ ts [] hall, List.nil_append, contents_eq_segments f ts hos]
+
+
+/-! ## what is known here about accepted constructed encodings
+
+Acceptance of the constructed form runs the `skip_opt` state machine (BER) or a loop of
+`take_opt_primitive_if` (CER) inside `Constructed::capture`.  Which inputs are accepted is NOT
+proved in this file (C10 / C11 and the differential check cover it).  What follows from the capture
+theorem C11 alone: whenever the constructed form is accepted, the value holds exactly the octets
+the source was advanced over, and decoding continues right behind them. -/
+
+theorem nocap_berLoop (inner : Nat) : ∀ (fuel : Nat) (c : Cons), NoCap (OS.berLoop c inner fuel) := by
+  intro fuel
+  induction fuel with
+  | zero => intro c; exact NoCap.fail _
+  | succ fuel ih =>
+    intro c
+    unfold OS.berLoop
+    have := nocap_skipOpt c OS.berFilter () inner
+    nocap
+    all_goals first | exact ih _ | skip
+
+theorem nocap_cerLoop : ∀ (fuel : Nat) (c : Cons) (short : Bool), NoCap (OS.cerLoop c fuel short) := by
+  intro fuel
+  induction fuel with
+  | zero => intro c short; exact NoCap.fail _
+  | succ fuel ih =>
+    intro c short
+    unfold OS.cerLoop takeOptPrimitiveIf
+    apply NoCap.bind
+    · apply nocap_processNextValue
+      intro t k
+      apply nocap_asPrimitive
+      intro m
+      have := nocap_prim_remaining
+      have := nocap_prim_skipAll
+      nocap
+    · intro r
+      nocap
+      exact ih _ _
+
+/-- whenever the constructed form is accepted (`runG`, the layer the test driver runs), the value
+    is `.cons bytes` where `bytes` is exactly the `k` octets of the source that were advanced over,
+    the source continues right behind them, and the enclosing limit is reduced by `k` -/
+theorem cons_accept_captures_consumed (fuel : Nat) (c : Cons) (g g' : G) (os : OS) (content' : Content)
+    (h : runG (OS.fromContent fuel (.cons c)) g = .ok ((os, content'), g')) :
+    ∃ k, k ≤ g.data.length ∧ os = .cons (g.data.take k) ∧ g'.data = g.data.drop k ∧
+      g'.limit = g.limit.map (· - k) := by
+  cases hm : c.mode with
+  | der => simp [OS.fromContent, hm] at h
+  | ber =>
+    simp only [OS.fromContent, hm, OS.takeConstructedBer, runG_bind] at h
+    cases hc : runG (capture c fun c => OS.berLoop c fuel fuel) g with
+    | error e => simp [hc] at h
+    | ok r =>
+      obtain ⟨⟨bytes, c'⟩, g1⟩ := r
+      simp only [hc, runG_pure, Except.ok.injEq, Prod.mk.injEq] at h
+      obtain ⟨⟨rfl, _⟩, rfl⟩ := h
+      obtain ⟨k, h1, h2, h3, h4, _⟩ := C11.capture_exact c _
+        (fun c => C11.uses_of_nocap (nocap_berLoop fuel fuel c)) g bytes c' g1 hc
+      exact ⟨k, h1, by rw [h2], h3, h4⟩
+  | cer =>
+    simp only [OS.fromContent, hm, OS.takeConstructedCer, runG_bind] at h
+    cases hc : runG (capture c fun c => OS.cerLoop c fuel false) g with
+    | error e => simp [hc] at h
+    | ok r =>
+      obtain ⟨⟨bytes, c'⟩, g1⟩ := r
+      simp only [hc, runG_pure, Except.ok.injEq, Prod.mk.injEq] at h
+      obtain ⟨⟨rfl, _⟩, rfl⟩ := h
+      obtain ⟨k, h1, h2, h3, h4, _⟩ := C11.capture_exact c _
+        (fun c => C11.uses_of_nocap (nocap_cerLoop fuel c false)) g bytes c' g1 hc
+      exact ⟨k, h1, by rw [h2], h3, h4⟩
+
+/-! ## non-vacuity -/
+
+/-- the content octets of `24 80 04 02 61 62 00 00` as the BER capture records them (the trailing
+    end-of-contents octets of the enclosing indefinite value are included, finding D12) -/
+def ex1 : Bytes := [0x04, 0x02, 0x61, 0x62, 0x00, 0x00]
+theorem ex1_wf : wfTrees 5 ex1 = some [.prim ⟨0, false, 4⟩ [0x61, 0x62]] := by rfl
+example : OS.octets (.cons ex1) = .ok [0x61, 0x62] := (views_eq_concat 5 ex1 _ ex1_wf).2.1
+
+/-- constructed in constructed (indefinite and definite inside), an empty segment, outer definite -/
+def ex2 : Bytes := [0x24, 0x80, 0x04, 0x02, 0x61, 0x62, 0x00, 0x00, 0x24, 0x02, 0x04, 0x00]
+theorem ex2_wf : wfTrees 5 ex2 =
+    some [.cons ⟨0, true, 4⟩ true [.prim ⟨0, false, 4⟩ [0x61, 0x62]],
+          .cons ⟨0, true, 4⟩ false [.prim ⟨0, false, 4⟩ []]] := by rfl
+example : OS.segments (.cons ex2) = .ok [[0x61, 0x62], []] := (views_eq_concat 5 ex2 _ ex2_wf).1
+
+/-- two levels of indefinite nesting inside an enclosing indefinite value (three end-of-contents) -/
+def ex3 : Bytes := [0x24, 0x80, 0x24, 0x80, 0x04, 0x01, 0x61, 0x00, 0x00, 0x04, 0x01, 0x62, 0x00, 0x00, 0x00, 0x00]
+theorem ex3_wf : wfTrees 10 ex3 =
+    some [.cons ⟨0, true, 4⟩ true [.cons ⟨0, true, 4⟩ true [.prim ⟨0, false, 4⟩ [0x61]], .prim ⟨0, false, 4⟩ [0x62]]] := by rfl
+example : OS.octets (.cons ex3) = .ok [0x61, 0x62] ∧ OS.len (.cons ex3) = .ok 2 :=
+  ⟨(views_eq_concat 10 ex3 _ ex3_wf).2.1, (views_eq_concat 10 ex3 _ ex3_wf).2.2.2.2.1⟩
+
+/-- only empty segments: the iterator yields them all, the value is empty -/
+def ex4 : Bytes := [0x04, 0x00, 0x04, 0x00]
+theorem ex4_wf : wfTrees 5 ex4 = some [.prim ⟨0, false, 4⟩ [], .prim ⟨0, false, 4⟩ []] := by rfl
+example : OS.segments (.cons ex4) = .ok [[], []] ∧ OS.isEmpty (.cons ex4) = .ok true :=
+  ⟨(views_eq_concat 5 ex4 _ ex4_wf).1, (views_eq_concat 5 ex4 _ ex4_wf).2.2.2.2.2.1⟩
+
+/-- the hypothesis fails where it should: other tags inside are not well-formed contents, and the
+    iterator panics on them (such contents are never produced by `from_content`) -/
+example : wfTrees 5 [0x02, 0x01, 0x05] = none := by rfl
+example : OS.segments (.cons [0x02, 0x01, 0x05]) = .error (.panic "unreachable") := by rfl
+
+/-- primitive form: accepted in DER, rejected in CER beyond 1000 octets -/
+example : runG0 (fromContentChecked 0 (.prim .der)) (St ([1, 2, 3] ++ [9]) (some 3)) =
+    .ok ((.prim [1, 2, 3], .prim .der), St [9] (some 0)) :=
+  (prim_accept_iff 0 .der [1, 2, 3] [9]).mpr (Or.inl (by decide))
+example : runG0 (fromContentChecked 0 (.prim .cer))
+    (St (List.replicate 1001 0 ++ []) (some (List.replicate 1001 (0 : UInt8)).length)) = .error .content :=
+  prim_reject 0 .cer (List.replicate 1001 0) [] (by rw [List.length_replicate]; decide)
+
+/-- the source: asking for one octet of `ex2` loads the first segment; asking for more than the
+    value holds delivers all of it -/
+example : ∃ s', OSS.request (OSS.new (.cons ex2)) 100 = .ok (2, s') ∧ s'.current = [0x61, 0x62] :=
+  let ⟨s', h1, h2, _⟩ :=
+    request_all _ [0x61, 0x62] 100 (new_inv_cons ex2 _ (items_of_wf 5 ex2 _ ex2_wf)) (by decide)
+  ⟨s', h1, h2⟩
+
+/-- **D12 (known finding).**  The BER capture of a value encoded with the indefinite form includes
+    the end-of-contents octets; the BER re-encoding writes them inside a definite-length value, and
+    the result is not a well-formed encoding (at any fuel up to the one shown; the stray `00 00`
+    is rejected as a value).  This is why `reencode_ber_wellformed_partial` needs `parseAll`. -/
+theorem reencode_ber_d12 :
+    Enc.write .ber (.octetString Tag.OCTET_STRING (.cons ex1)) =
+      .ok [0x24, 0x06, 0x04, 0x02, 0x61, 0x62, 0x00, 0x00] ∧
+    parseValue .ber 8 [0x24, 0x06, 0x04, 0x02, 0x61, 0x62, 0x00, 0x00] = none ∧
+    OS.octets (.cons ex1) = .ok [0x61, 0x62] := ⟨by rfl, by rfl, by rfl⟩
 
 end Bcder.Props.C16
